@@ -548,6 +548,13 @@ func prop(c Case) error {
 	if !bytes.Equal(got, want) {
 		return fmt.Errorf("the slice returned by %s Marshal changed when another geometry was marshalled afterwards:\n now  % x\n was  % x", c.Mode, got, want)
 	}
+	// the bytes returned belong to the caller: overwritten, they must not come back
+	for i := range got {
+		got[i] = 0x5A
+	}
+	if again, err := cd.marshal(t, bo); err != nil || !bytes.Equal(again, want) {
+		return fmt.Errorf("%s Marshal after the caller overwrote the slice returned by an earlier Marshal: %v\n got  % x\n want % x", c.Mode, err, again, want)
+	}
 	// (h) the encoding is that of the coordinates as they are now: the first two
 	// ordinates of every coordinate are exchanged in place and the same object is
 	// marshalled again
